@@ -125,7 +125,12 @@ def pipeline(tier, seed):
         # drop older cache entries (disk is limited)
         if os.path.isdir(CACHE):
             for d in os.listdir(CACHE):
-                shutil.rmtree(os.path.join(CACHE, d), ignore_errors=True)
+                # entries of other (possibly concurrent) runs are left alone while they are fresh
+                try:
+                    if time.time() - os.path.getmtime(os.path.join(CACHE, d)) > 2 * 3600:
+                        shutil.rmtree(os.path.join(CACHE, d), ignore_errors=True)
+                except OSError:
+                    pass
         os.makedirs(cdir, exist_ok=True)
         t0 = time.time()
         rc, out = verif.build_harness("chain")
